@@ -102,6 +102,34 @@ func (r *c07Run) closeSlot(slot, how int64) {
 	r.line = append(r.line, w.scopeObs()...)
 }
 
+// relabel: SetProtocol(q) once more on one end of a held stream; then what both
+// ends report.  With a real resource manager the stream's scope is attached
+// already and refuses: the stream must go on reporting the negotiated protocol.
+func (r *c07Run) relabel(slot, side, q int64) {
+	w := r.w
+	var errc, dl, ll int64 = -1, -1, -1
+	if sl, ok := r.slots[slot]; ok {
+		w.mu.Lock()
+		ls := w.heldL[sl.nonce]
+		w.mu.Unlock()
+		if ls != nil {
+			st := sl.d
+			if side != 0 {
+				st = ls
+			}
+			errc = 0
+			if err := st.SetProtocol(c07Names[q]); err != nil {
+				errc = 1
+				r.out.Cover("relabel.refused")
+			} else {
+				r.out.Cover("relabel.accepted")
+			}
+			dl, ll = c07Pid(sl.d.Protocol()), c07Pid(ls.Protocol())
+		}
+	}
+	r.line = append(r.line, 8, slot, side, q, errc, dl, ll)
+}
+
 func (r *c07Run) reset() {
 	w := r.w
 	for _, n := range c07Names {
